@@ -149,6 +149,11 @@ class World:
     def gen_datagram(self, rng):
         """-> (class, bytes, is_request)"""
         q = rng.random()
+        if q < 0.04:
+            # a valid request that fills the datagram up to the responder's receive size (1024 bytes)
+            n = rng.choice([509, 600, 800, 1000, 1023, 1024, rng.randint(509, 1024)])
+            head, tail = b'{"SECoP": "discover", "pad": "', b'"}'
+            return 'request', head + b'x' * (n - len(head) - len(tail)) + tail, True
         if q < 0.25:
             v = rng.choice([b'{"SECoP": "discover"}', b'{"SECoP":"discover"}', b' {"SECoP": "discover", "x": [1, 2]} ',
                             b'{"a": null, "SECoP": "discover"}', '{"SECoP": "discover", "ä": "€"}'.encode(),
